@@ -29,7 +29,7 @@ from vf import site  # noqa: E402
 PID = "C19"
 AUDIT_DIR = os.path.join(core.VERIF, "vf", "audit_site")
 
-PLACEMENTS = ["sibling", "nested", "absolute", "symlink", "dotdot", "inside_src", "stale_output"]
+PLACEMENTS = ["sibling", "nested", "absolute", "symlink", "dotdot", "inside_src", "stale_output", "stale_blank_in_name"]
 TWO_PATH = ("os.rename", "shutil.move", "shutil.copyfile", "shutil.copytree", "os.symlink", "os.link", "shutil.copymode", "shutil.copystat")
 SRC_FIRST = ("shutil.copyfile", "shutil.copytree", "os.symlink", "os.link", "shutil.copymode", "shutil.copystat")
 REFUSALS = ["equals_src", "parent_of_src", "grandparent_of_second_src", "symlinked_parent_of_src"]
@@ -127,6 +127,12 @@ def build_sandbox(root, rng, placement, opts_on):
             os.symlink("../../../big_original.png", os.path.join(proj, mrel, "big.png"))
             os.symlink("../../../../bystander/keep.txt", os.path.join(proj, mrel, "deep", "kept.txt"))
         opts["media_dir"] = "./" + mrel
+    if opts_on.get("html_template_dir"):
+        # the user's own template directory (an input): nothing may be left in it
+        os.makedirs(os.path.join(proj, "my_templates"))
+        open(os.path.join(proj, "my_templates", "README.txt"), "w").write("overrides go here\n")
+        shutil.copy(os.path.join(os.path.dirname(ford.__file__), "templates", "search.html"), os.path.join(proj, "my_templates", "search.html"))
+        opts["html_template_dir"] = ["./my_templates"]
     if opts_on.get("css"):
         open(os.path.join(proj, "custom.css"), "w").write("h1{color:red}\n")
         opts["css"] = "./custom.css"
@@ -179,6 +185,17 @@ def build_sandbox(root, rng, placement, opts_on):
         open(os.path.join(out, "CNAME"), "w").write("docs.example.org\n")
         open(os.path.join(out, ".nojekyll"), "w").write("")
         opts["output_dir"] = "./doc"
+        allowed.append(out)
+    elif placement == "stale_blank_in_name":
+        # an existing output directory whose name holds a blank and shell characters, next to directories named like its parts
+        out = os.path.join(proj, "docs html;(v2)")
+        os.makedirs(os.path.join(out, "old"))
+        open(os.path.join(out, "old", "stale.html"), "w").write("<html>stale</html>")
+        for base_ in (proj, os.path.join(root, "work")):
+            for dn in ("docs", "html", "html;(v2)"):
+                os.makedirs(os.path.join(base_, dn), exist_ok=True)
+                open(os.path.join(base_, dn, "handwritten.md"), "w").write("the user's own\n")
+        opts["output_dir"] = "./docs html;(v2)"
         allowed.append(out)
     elif placement == "file_in_the_way":
         # a regular file stands where a parent directory of the output directory would have to be
@@ -315,6 +332,7 @@ def case(arg):
         opts_on["escaping_copy_subdir"] = rng.random() < 0.4
         opts_on["outside_subpage"] = rng.random() < 0.3
         opts_on["quiet"] = rng.random() < 0.4
+        opts_on["html_template_dir"] = rng.random() < 0.3
         opts_on["bad_preprocessor"] = mode == "plain" and rng.random() < 0.3
         opts_on["graph_dir"] = [None, "sibling", "in_output", "absolute", "contains_sources", "under_empty_parent"][seed % 6]
         opts_on["lonely_sources"] = rng.random() < (0.6 if opts_on["graph_dir"] == "under_empty_parent" else 0.15)
